@@ -1,5 +1,5 @@
 """C13 — every request gets exactly one terminal outcome with the matching payload
-(model: Model/ReqResp/Ledger.lean + Model/ReqResp/Env.lean, adapter: src/verif/c13.rs)."""
+(model: Model/ReqResp/Ledger.lean, environment + driver: Driver/C13.lean, adapter: src/verif/c13.rs)."""
 from .common import bump
 
 ID = "C13"
@@ -32,8 +32,8 @@ RULE = ("seeded histories over 4 peers (3 dialable): bursts of 1-4 requests per 
         "every dial and substream open and lets every future time out; a case is non-trivial if it has a delivered "
         "response and a failure; distinct = distinct (ops, observations) transcripts by SHA-256")
 TRUSTED_BASE = ["Lean 4.33 kernel", "axioms: propext, Classical.choice, Quot.sound only",
-                "hand-written model Model/ReqResp/Ledger.lean (protocol) and Model/ReqResp/Env.lean (TransportService + "
-                "harness environment used only by the driver) tied to request_response/mod.rs by this correspondence run",
+                "hand-written model Model/ReqResp/Ledger.lean (protocol) and the environment model inside Driver/C13.lean "
+                "(TransportService + harness, used only by the driver) tied to request_response/mod.rs by this correspondence run",
                 "adapter /repo/src/verif/c13.rs (plays transport manager, connections and remote peers), harness, verif.py, "
                 "checks/c13.py",
                 "tokio runtime with paused clock (timeouts driven by logical time, 1 unit = 10 s)",
